@@ -14,6 +14,10 @@
 //!   all raw limbs of all outputs compared with the first count: `ok word=<w> diff=<-|t,…> h=<fnv>`.
 //! * `mixed be= workers=W seed=S` concurrent mixed workloads on one shared Module vs the same alone:
 //!   `ok conc=<h,…> alone=<h,…>`.
+//! * `wordmt be= op=<add|sub|sll|srl|sra|and|or|xor|slt|sltu> a= b= threads=1,2,…`: word-level `<op>_multi_thread` on the
+//!   crate's test parameters with the scratch sized by the library's own `<op>_multi_thread_tmp_bytes(threads, …)`
+//!   (`ScratchOwned::alloc(exactly that)`); per thread count: `t<th>=<bytes>:same|diff|panic:<class>` (raw limbs of the
+//!   result vs the first count), plus `word=<decrypted>` and the components `slot= per= pack=` of the formula.
 //! * `prep be= ty=u8|u32 value= start= count= threads=1,2,… perturb=P`  real circuit bootstrapping
 //!   (`prepare_custom_multi_thread`, crate test parameters; `scratch=full|exact|short` = per-thread
 //!   size rounded up to 64 (+64) | exactly `threads * tmp_bytes` | 64 bytes less):
@@ -26,7 +30,7 @@ use std::sync::atomic::{AtomicU64, AtomicUsize, Ordering};
 use std::time::Duration;
 
 use poulpy_bin_fhe::bdd_arithmetic::{
-    BitSize, ExecuteBDDCircuit, FheUint, FheUintPrepare, FheUintPrepared, GetBitCircuitInfo, GetGGSWBit, Node,
+    Add, And, BitSize, ExecuteBDDCircuit, Or, Sll, Slt, Sltu, Sra, Srl, Sub, Xor, FheUint, FheUintPrepare, FheUintPrepared, GetBitCircuitInfo, GetGGSWBit, Node,
     tests::test_suite::TestContext,
     verif_hooks::{set_chunk_start_hook, u32_circuits},
 };
@@ -633,6 +637,92 @@ macro_rules! prep_impl {
                 format!("ok per={per_out} {}", res.join(" "))
             }
 
+            pub fn wordmt(tc: &Tc, t: &[&str]) -> String {
+                use poulpy_core::GLWEPacking;
+                use poulpy_core::layouts::GLWEAutomorphismKeyHelper;
+                let op = kvs(t, "op").unwrap_or("add");
+                let a = kvn(t, "a", 0) as u32;
+                let b = kvn(t, "b", 0) as u32;
+                let tl = kvlist(t, "threads");
+                let module = &tc.module;
+                let glwe_infos = tc.glwe_infos();
+                let ggsw_infos = tc.ggsw_infos();
+                let mut xa = Source::new([22u8; 32]);
+                let mut xe = Source::new([23u8; 32]);
+                let mut scratch: ScratchOwned<BE> = ScratchOwned::alloc(1 << 22);
+                let ggsw_enc = EncryptionLayout::new_from_default_sigma(ggsw_infos).unwrap();
+                let mut ap: FheUintPrepared<DeviceBuf<BE>, u32, BE> = FheUintPrepared::alloc_from_infos(module, &ggsw_infos);
+                let mut bp: FheUintPrepared<DeviceBuf<BE>, u32, BE> = FheUintPrepared::alloc_from_infos(module, &ggsw_infos);
+                ap.encrypt_sk(module, a, &tc.sk_glwe, &ggsw_enc, &mut xe, &mut xa, scratch.borrow());
+                bp.encrypt_sk(module, b, &tc.sk_glwe, &ggsw_enc, &mut xe, &mut xa, scratch.borrow());
+                let key = &tc.bdd_key;
+                let circuits = u32_circuits();
+                let Some((_, c)) = circuits.iter().find(|(n, _)| *n == op) else {
+                    return "bad-op".into();
+                };
+                let slot = 32 * GLWE::<Vec<u8>>::bytes_of_from_infos(&glwe_infos);
+                let per = module.execute_bdd_circuit_tmp_bytes(&glwe_infos, c.max_state_size(), &ggsw_infos);
+                let pack = module.glwe_pack_tmp_bytes(&glwe_infos, &key.automorphism_key_infos());
+                let mut first: Option<Vec<i64>> = None;
+                let mut word: u32 = 0;
+                let mut res_s: Vec<String> = Vec::new();
+                for &th in &tl {
+                    let mut res: FheUint<Vec<u8>, u32> = FheUint::alloc_from_infos(&glwe_infos);
+                    macro_rules! q {
+                        ($f:ident) => {
+                            res.$f(module, th, &glwe_infos, &ggsw_infos, key)
+                        };
+                    }
+                    let bytes = match op {
+                        "add" => q!(add_multi_thread_tmp_bytes),
+                        "sub" => q!(sub_multi_thread_tmp_bytes),
+                        "sll" => q!(sll_multi_thread_tmp_bytes),
+                        "srl" => q!(srl_multi_thread_tmp_bytes),
+                        "sra" => q!(sra_multi_thread_tmp_bytes),
+                        "and" => q!(and_multi_thread_tmp_bytes),
+                        "or" => q!(or_multi_thread_tmp_bytes),
+                        "xor" => q!(xor_multi_thread_tmp_bytes),
+                        "slt" => q!(slt_multi_thread_tmp_bytes),
+                        _ => q!(sltu_multi_thread_tmp_bytes),
+                    };
+                    let mut sc: ScratchOwned<BE> = ScratchOwned::alloc(bytes);
+                    let r = std::panic::catch_unwind(std::panic::AssertUnwindSafe(|| {
+                        macro_rules! run {
+                            ($f:ident) => {
+                                res.$f(th, module, &ap, &bp, key, sc.borrow())
+                            };
+                        }
+                        match op {
+                            "add" => run!(add_multi_thread),
+                            "sub" => run!(sub_multi_thread),
+                            "sll" => run!(sll_multi_thread),
+                            "srl" => run!(srl_multi_thread),
+                            "sra" => run!(sra_multi_thread),
+                            "and" => run!(and_multi_thread),
+                            "or" => run!(or_multi_thread),
+                            "xor" => run!(xor_multi_thread),
+                            "slt" => run!(slt_multi_thread),
+                            _ => run!(sltu_multi_thread),
+                        }
+                    }));
+                    if r.is_err() {
+                        res_s.push(format!("t{th}={bytes}:panic:{}", panic_class()));
+                        continue;
+                    }
+                    use poulpy_core::layouts::GLWEToRef;
+                    let raw: Vec<i64> = res.to_ref().data().raw().to_vec();
+                    match &first {
+                        None => {
+                            word = res.decrypt(module, &tc.sk_glwe, scratch.borrow());
+                            first = Some(raw);
+                            res_s.push(format!("t{th}={bytes}:same"));
+                        }
+                        Some(f) => res_s.push(format!("t{th}={bytes}:{}", if *f == raw { "same" } else { "diff" })),
+                    }
+                }
+                format!("ok word={word} slot={slot} per={per} pack={pack} {}", res_s.join(" "))
+            }
+
             pub fn prep(tc: &Tc, t: &[&str]) -> String {
                 let value = kvn(t, "value", 0);
                 match kvs(t, "ty").unwrap_or("u32") {
@@ -690,6 +780,11 @@ pub fn run(_args: &[String]) {
             "part" => dispatch!(part),
             "eval" => dispatch!(eval),
             "mixed" => dispatch!(mixed),
+            "wordmt" => match be {
+                "fft64ref" => prep_fft64ref::wordmt(tc_r.get_or_insert_with(prep_fft64ref::Tc::new), &t),
+                "fft64avx" => prep_fft64avx::wordmt(tc_a.get_or_insert_with(prep_fft64avx::Tc::new), &t),
+                _ => "bad-backend".to_string(),
+            },
             "prep" => match be {
                 "fft64ref" => prep_fft64ref::prep(tc_r.get_or_insert_with(prep_fft64ref::Tc::new), &t),
                 "fft64avx" => prep_fft64avx::prep(tc_a.get_or_insert_with(prep_fft64avx::Tc::new), &t),
